@@ -11,10 +11,11 @@ def C04():
     from contracts.replay_pagination import replay_assign_pages
     return Property(
         "C04",
-        units=[ContractUnit(AssignPages())] + _strategy_units() + _budget_units(),
+        units=[ContractUnit(AssignPages()), _section_unit()] + _strategy_units() + _budget_units(),
         level="proof",
         technique="loop invariant + postconditions on the real AST of PageBreakCalculator._assign_pages; the three paginate() strategies forward "
-                  "page_by / subline_by / new_page (SublineStrategy: new_page=True) and cut pages as the intervals; VCs by z3/cvc5",
+                  "page_by / subline_by / new_page (SublineStrategy: new_page=True) and cut pages as the intervals; _encode_body_section picks the subline "
+                  "strategy when subline_by is set, else page_by, else default, and hands it the caller's body and the reservation; VCs by z3/cvc5",
         trusted_base=[SOLVERS, ENGINE, POLARS],
         assumptions=["str() injective on non-null group keys of one dtype (the flag computation compares str(value))"],
         replayers={"pagination/core.py::PageBreakCalculator._assign_pages": replay_assign_pages},
@@ -63,7 +64,7 @@ def C08():
         "C08",
         units=[ContractUnit(ColWidths()), ContractUnit(InchToTwip()), ContractUnit(EncodeRows()), ContractUnit(CellAsRtf()), ContractUnit(RowAsRtf()),
                ContractUnit(EncodeSpanningRow()), ContractUnit(RenderBody(), variants=["levels1", "levels2", "no_boundaries"]),
-               ContractUnit(EncodeColumnHeader()), ContractUnit(RenderColumnHeaders()), _render_unit(quick=("groups1",), thorough=("groups2",))]
+               ContractUnit(EncodeColumnHeader()), ContractUnit(RenderColumnHeaders()), _render_unit(quick=("groups1",), thorough=("groups2",)), _section_unit()]
         + _note_units() + LEMMAS,
         level="proof",
         technique="comprehension invariant cum*total == col_width*P[i] (nonlinear real arithmetic) on the real Utils._col_widths; inductive lemma for prefix "
@@ -72,8 +73,8 @@ def C08():
                   "and the page's col_widths for the data rows; every column header is laid out on the table width with exactly one relative width per "
                   "header cell (inherited full-table widths are replaced by the displayed columns' widths)",
         trusted_base=[SOLVERS, ENGINE, "floats treated as reals (L3): 'within one twip' is exact in the model"],
-        assumptions=["width vectors reaching the page (RTFDocument.__init__ defaults/broadcast/inheritance, prepare_dataframe_for_body_encoding slicing, "
-                     "_encode_body_section) are separate carriers not yet under contract in this check; "
+        assumptions=["width vectors reaching the section (RTFDocument.__init__ defaults/broadcast/inheritance, prepare_dataframe_for_body_encoding slicing) "
+                     "are separate carriers not yet under contract in this check; _encode_body_section turns them into the page boundaries (unit EncodeBodySection); "
                      "RenderColumnHeaders assumes their results: the page carries one relative width per displayed column and every header has widths",
                      "header labels are one per displayed column or one per own relative width (other shapes are configuration errors outside the property)",
                      "nested (multi-section) header lists are not covered by RenderColumnHeaders"],
@@ -280,6 +281,11 @@ def _render_unit(quick=("no_groups", "groups1"), thorough=("groups2",)):
     return ContractUnit(RenderPage(), variants=list(quick), thorough_variants=list(thorough))
 
 
+def _section_unit():
+    from contracts.body_section import EncodeBodySection
+    return ContractUnit(EncodeBodySection())
+
+
 def _budget_units():
     from contracts.budget import UNITS, LEMMAS
     return [ContractUnit(u) for u in UNITS] + LEMMAS
@@ -297,17 +303,20 @@ def C02():
     from contracts.pagination_core import AssignPages
     from contracts.replay_pagination import replay_assign_pages
     from contracts.replay_docs import replayer as D
+    from contracts.postprocess import ApplyDataPostProcessing
     return Property(
-        "C02", units=[ContractUnit(EncodeRows()), ContractUnit(RenderBody()), ContractUnit(RowAsRtf()), ContractUnit(TextAsRtf()), ContractUnit(AssignPages())]
+        "C02", units=[ContractUnit(EncodeRows()), ContractUnit(RenderBody()), ContractUnit(RowAsRtf()), ContractUnit(TextAsRtf()), ContractUnit(AssignPages()),
+                      ContractUnit(ApplyDataPostProcessing()), _section_unit()]
         + _strategy_units(),
         level="proof",
         technique="row-view contracts: _assign_pages pages are consecutive intervals covering all rows; _render_body emits every page row exactly once in order; "
                   "_encode emits one Row per frame row whose cell j shows the display text of cell (i, j) in column order; Row._as_rtf keeps cell order; one delimiter space before the text",
         trusted_base=[SOLVERS, ENGINE, POLARS, "polars slice / df[a:b] row-interval semantics (assumed)"],
-        assumptions=["_apply_data_post_processing (re-cut on the column-reduced frame) and prepare_dataframe_for_body_encoding (column removal keeps "
-                     "order) are not yet under contract in this check; multi-section order likewise; calculate_row_metadata is used through AssignPages' ensures"],
+        assumptions=["prepare_dataframe_for_body_encoding (column removal keeps rows and column order) is not yet under contract in this check: its result is "
+                     "assumed by EncodeBodySection; multi-section order likewise; calculate_row_metadata is used through AssignPages' ensures"],
         replayers={"pagination/core.py::PageBreakCalculator._assign_pages": replay_assign_pages,
-                   "encoding/renderer.py::PageRenderer._render_body": D("cells"), "attributes.py::TableAttributes._encode": D("cells")},
+                   "encoding/renderer.py::PageRenderer._render_body": D("cells"), "attributes.py::TableAttributes._encode": D("cells"),
+                   "encoding/unified_encoder.py::": D("cells")},
         design_ref="4/C02")
 
 
@@ -370,16 +379,17 @@ def C09():
 
 def C13():
     from contracts.grouping import UNITS, LEMMAS
+    from contracts.postprocess import ApplyDataPostProcessing
     from contracts import replayers as R
     return Property(
-        "C13", units=[ContractUnit(u) for u in UNITS] + LEMMAS, level="proof",
+        "C13", units=[ContractUnit(u) for u in UNITS] + [ContractUnit(ApplyDataPostProcessing(), variants=["group_by"])] + LEMMAS, level="proof",
         technique="Kleene-semantics model of the polars expression fragment; whole-frame postconditions on the real _suppress_single_column / "
                   "_suppress_hierarchical_columns (2 and 3 levels) / restore_page_context (loop invariant over page starts) / validate_data_sorting "
                   "(seen-set invariant, exceptional postcondition) + contiguity lemma",
         trusted_base=[SOLVERS, ENGINE, "polars expression semantics as modelled in pyvc/libmodels/polars_expr.py (Kleene nulls, shift, when/then/otherwise, "
                       "with_columns evaluating pl.col on its receiver); null is a single value"],
-        assumptions=["page start indices handed to restore_page_context (_apply_data_post_processing) and the deeper levels of validate_data_sorting "
-                     "(composite string key; injectivity precondition) are not yet under contract in this check"],
+        assumptions=["the deeper levels of validate_data_sorting (composite string key; injectivity precondition) are not yet under contract in this check; "
+                     "the page start indices handed to restore_page_context are proved to be the first rows of pages 2..P (unit ApplyDataPostProcessing)"],
         replayers={"services/grouping_service.py::": R.replay_grouping}, design_ref="4/C13, A18")
 
 
@@ -429,7 +439,7 @@ def C03():
     from contracts.strwidth import GetStringWidth
     from contracts.replay_pagination import replay_assign_pages
     return Property(
-        "C03", units=_budget_units() + [ContractUnit(AssignPages()), ContractUnit(GetStringWidth())] + _strategy_units(), level="proof",
+        "C03", units=_budget_units() + [ContractUnit(AssignPages()), ContractUnit(GetStringWidth()), _section_unit()] + _strategy_units(), level="proof",
         technique="budget inequalities carried by contracts on the real code: reserved rows = [subline] + #headers with text + [footnote] + [source] "
                   "(counting invariant); per row data_rows >= 1 and >= int(W/width)+1 >= ceil(W/width) for every displayed cell at that cell's own font and "
                   "size (column-loop invariant with ghost displayed-column count); total = data + page_by heading rows; _assign_pages keeps every page's "
@@ -438,7 +448,8 @@ def C03():
         assumptions=["rows RENDERED per page for column headers, page-top / continuation group headings and table-rendered footnote/source "
                      "(PageRenderer.render, _render_column_headers) are not yet under contract: the comparison 'rendered <= reserved' per component is "
                      "open in this check (design section 5 lists the default-header and continuation-heading findings to be encoded there)",
-                     "one column width per displayed column at the call site (_encode_body_section) is assumed here"],
+                     "one column width per displayed column and the reservation reaching the strategy are proved at the call site (unit EncodeBodySection) "
+                     "relative to the assumed result of prepare_dataframe_for_body_encoding"],
         replayers={"pagination/core.py::PageBreakCalculator._assign_pages": replay_assign_pages}, design_ref="4/C03, A2-A3")
 
 
